@@ -18,6 +18,7 @@
 (*                          has a convert(); same format = type conversion  *)
 (*   Clone(src,dst,mode,ty) dst.clone(src, mode)                            *)
 (*   Transp(src,dst)        dst = src.transpose()    csr, bcsr, dense       *)
+(*   TranspInplace(s)       s.transpose_inplace()    dense                  *)
 (*   Permute(s,p,q)         s.permute(p,q) in place  csr, bcsr              *)
 (*   Layout(src,dst,ty)     dst = MT(src.layout())                          *)
 (*   Graph(src,dst,fmt,ty)  dst = MT(graph of src's pattern)                *)
@@ -41,7 +42,7 @@ CONSTANTS NS,        \* number of slots
           Depth,     \* number of calls per emitted history
           Seeds,     \* set of seed family names (see SeedFam)
           SeedTypes, \* types the seed container is built with
-          Ops,       \* enabled calls: subset of {"conv","clone","transp","permute","layout","graph","copy","format","poke"}
+          Ops,       \* enabled calls: subset of {"conv","clone","transp","tinplace","permute","layout","graph","copy","format","poke"}
           Types,     \* target types offered to conv/clone/layout/graph (the source type is always offered)
           PermSel,   \* "all" = every pair of permutations, "few" = rotations/reversal and their inverses
           Palette    \* 1 = injective non-zero values, 2 = values with stored zeros and repeats
@@ -244,6 +245,19 @@ Transp ==
                           /\ SM(w.slots[dst]) = SN(S) /\ SN(w.slots[dst]) = SM(S)
                           /\ Transpose(SN(S), SM(S), SAbs(w.mem, w.slots[dst])) = SAbs(mem, S))
 
+\* DenseMatrix::transpose_inplace(): the value array is rewritten in place (visible through every slot sharing
+\* it, which keeps its own dimensions), rows and columns of this container are swapped
+TranspInplace ==
+  /\ "tinplace" \in Ops /\ More
+  /\ \E s \in 1..NS :
+       /\ Usable(s) /\ slots[s].fmt = "dense"
+       /\ LET S == slots[s]
+              DT == Transpose(S.m, S.n, SAbs(mem, S))
+          IN Step(Rec("tinplace", s, s),
+                  [slots |-> [slots EXCEPT ![s] = [S EXCEPT !.m = S.n, !.n = S.m]],
+                   mem |-> [mem EXCEPT ![S.el[1]] = [d |-> Flatten(DT), def |-> TRUE]]],
+                  LAMBDA w : SAbs(w.mem, w.slots[s]) = DT /\ Transpose(S.n, S.m, SAbs(w.mem, w.slots[s])) = SAbs(mem, S))
+
 \* ---- Permute (in place) -----------------------------------------------------
 Id(k)  == [i \in 1..k |-> i]
 Rot(k) == [i \in 1..k |-> (i % k) + 1]
@@ -414,7 +428,7 @@ Init ==
        /\ slots = w.slots /\ mem = w.mem
        /\ hist = <<Rec("seed", 0, 1) @@ [exp |-> <<[slot |-> 1, st |-> Proj(w.mem, w.slots[1])]>>, law |-> TRUE]>>
 
-Next == Conv \/ Clone \/ Transp \/ Permute \/ LayoutOp \/ GraphOp \/ CopyOp \/ FormatOp \/ Poke
+Next == Conv \/ Clone \/ Transp \/ TranspInplace \/ Permute \/ LayoutOp \/ GraphOp \/ CopyOp \/ FormatOp \/ Poke
 Spec == Init /\ [][Next]_vars
 
 \* ---- invariants of the specification itself ----------------------------------------
